@@ -1,11 +1,15 @@
 """C11 — output validator: 'valid' implies the schema holds; clean JSON is taken verbatim.
 
-Environment-recording correspondence (DESIGN 3.3).  The real `Chaperone` runs with thin recording wrappers
-around the library calls it orchestrates (installed from this process: module attributes `json` and `re` of
-`operon_ai.organelles.chaperone`, the class attribute `Chaperone._coerce_types_tracked`, and a `model_validate`
-classmethod on the base class of the generated schemas).  The recorded finite call table is handed to the Lean
-driver as `env …` lines in front of the `fold` line that produced it; the driver runs the model over that table
-and must make exactly the same calls, in the same order, with equal arguments, and reach the same observation.
+Environment-recording correspondence (DESIGN 3.3), at the level of the PUBLIC contract.  Nothing inside the module
+under test is substituted.  The library environment handed to the Lean driver is derived by EVALUATION, by this
+harness, on the texts that occur: for the instance's public tables (`JSON_EXTRACTION_PATTERNS`, `JSON_REPAIRS`, read
+from the instance) the matches of every extraction pattern in the raw text, the repair chain on the stripped text,
+`json.loads` of every text that can reach it (stripped text, stripped matches, end of the repair chain), and the Python
+primitives of the coercion table on every parsed value.  However the code calls the regex engine or the json module
+(module functions, compiled patterns, caches) is invisible to the check.  The only interception is the `model_validate`
+classmethod of the generated schemas' own base class — calls on the caller's schema class are what a caller can observe:
+the model must make exactly those calls, in order, with equal arguments, and reach the same observation; statistics are
+read through `get_statistics()` only.
 
 Protocol (one case = one schema + one Chaperone):
   schema <spec>                          spec: name:kind,… kinds int float str bool li ls oi os oid osd id sd n{…}
@@ -99,6 +103,8 @@ class Recorder:
         self.ofd_done = set()
         self.fields_for = None   # schema whose `env A` line is current
         self.label_codes = {}
+        self.pattern_note = {}
+        self.repair_note = {}
 
     def reset_tables(self):
         """a new schema: what model_validate / the coercion helper answer belongs to the new class"""
@@ -231,9 +237,8 @@ class Recorder:
         return self.unknown.setdefault(what, 90 + len(self.unknown))
 
     # -- recording -------------------------------------------------------------------------------------
-    def add(self, key: tuple, line_key: str, result: str):
-        if not self.active:
-            return
+    def add(self, key: tuple, line_key: str, result: str, call: bool = False):
+        """enter a fact into the environment table; `call` = an intercepted call (only model_validate is one)"""
         if key in self.table:
             idx, old = self.table[key]
             if old != result:
@@ -242,7 +247,82 @@ class Recorder:
             idx = len(self.table)
             self.table[key] = (idx, result)
             self.pending.append(f"env {line_key} {result}")
-        self.calls.append(idx)
+        if call:
+            self.calls.append(idx)
+
+    # -- the library environment, derived by EVALUATION on the texts that occur (not by intercepting how the code
+    #    under test happens to call `re` / `json`) -------------------------------------------------------------------
+    def table_ids(self, ch):
+        """the instance's public tables, as universe ids: ([(id, regex, name)], [(id, regex, repl, name)])"""
+        pats, reps = [], []
+        known_p = {(p, n): i for i, (p, n) in enumerate(ALL_PATTERNS)}
+        known_r = {(p, r, n): i for i, (p, r, n) in enumerate(ALL_REPAIRS)}
+        try:
+            for e in list(ch.JSON_EXTRACTION_PATTERNS):
+                p, n = e
+                pats.append((known_p[(p, n)] if (p, n) in known_p else self.unknown_index(("F", p, n)), p, n))
+        except Exception:
+            pats = [(90, r"\x00unreadable", "unreadable")]
+        try:
+            for e in list(ch.JSON_REPAIRS):
+                p, r, n = e
+                reps.append((known_r[(p, r, n)] if (p, r, n) in known_r else self.unknown_index(("U", p, r, n)), p, r, n))
+        except Exception:
+            reps = [(91, r"\x00unreadable", "", "unreadable")]
+        return pats, reps
+
+    def prepare_text(self, ch, raw: str):
+        """Everything the libraries say about `raw`: the matches of every extraction pattern of the instance's table,
+        the repair chain applied to the stripped text, json.loads of every text that can reach it (the stripped text,
+        every stripped match, the end of the repair chain), and the primitives of the coercion table on every parsed
+        value.  Also tells the driver which tables the instance shows (`env I`)."""
+        pats, reps = self.table_ids(ch)
+        self.pattern_note = {f"extracted_via_{n}": f"x{i}" for i, _, n in pats}
+        self.repair_note = {n: f"r{i}" for i, _, _, n in reps}
+        self.pending.append("env I " + (",".join(str(i) for i, _, _ in pats) or "-") + " "
+                            + (",".join(str(i) for i, _, _, _ in reps) or "-"))
+        tk = self.text(raw)
+        cands = [raw.strip()]
+        for i, p, _ in pats:
+            try:
+                ms = real_re.findall(p, raw, PINNED_FLAGS)
+            except Exception as e:
+                self.add(("F", i, tk), f"F {i} {tk}", "raise " + self.exc_token(e))
+                continue
+            if all(isinstance(m, str) for m in ms):
+                self.add(("F", i, tk), f"F {i} {tk}", " ".join(["ok"] + [self.text(m) for m in ms]))
+                cands.extend(m.strip() for m in ms)
+            else:
+                self.add(("F", i, tk), f"F {i} {tk}", "ok " + self.text("\x00tuples:" + repr(ms)))
+        t = raw.strip()
+        for i, p, r, _ in reps:
+            tt = self.text(t)
+            try:
+                t2 = real_re.sub(p, r, t)
+            except Exception as e:
+                self.add(("U", i, tt), f"U {i} {tt}", "raise " + self.exc_token(e))
+                break
+            self.add(("U", i, tt), f"U {i} {tt}", "ok " + self.text(t2))
+            t = t2
+        else:
+            cands.append(t)
+        seen = set()
+        for c in cands:
+            if c in seen:
+                continue
+            seen.add(c)
+            ck = self.text(c)
+            try:
+                v = real_json.loads(c)
+            except Exception as e:
+                self.add(("L", ck), f"L {ck}", "raise " + self.exc_token(e))
+                continue
+            self.add(("L", ck), f"L {ck}", f"ok {self.jid(v)}")
+            if v is not None:
+                try:
+                    self.describe_data(v)
+                except Exception:
+                    pass
 
     def exc_token(self, e) -> str:
         from pydantic import ValidationError
@@ -258,75 +338,6 @@ class Recorder:
 
 
 REC = Recorder()
-
-
-class RecJson:
-    """stands in for the module `json` inside operon_ai.organelles.chaperone"""
-
-    def __init__(self):
-        self.JSONDecodeError = real_json.JSONDecodeError
-
-    def loads(self, s, *a, **kw):
-        if not REC.active:
-            return real_json.loads(s, *a, **kw)
-        extra = "" if not (a or kw) else "\x00args"
-        tk = REC.text(s if not extra else str(s) + extra)
-        try:
-            v = real_json.loads(s, *a, **kw)
-        except Exception as e:
-            REC.add(("L", tk), f"L {tk}", "raise " + REC.exc_token(e))
-            raise
-        REC.add(("L", tk), f"L {tk}", f"ok {REC.jid(v)}")
-        return v
-
-    def __getattr__(self, n):
-        return getattr(real_json, n)
-
-
-class RecRe:
-    """stands in for the module `re` inside operon_ai.organelles.chaperone"""
-
-    def __init__(self):
-        self.pat = {(p, PINNED_FLAGS): i for i, (p, _) in enumerate(ALL_PATTERNS)}
-        self.rep = {(p, r, 0, 0): i for i, (p, r, _) in enumerate(ALL_REPAIRS)}
-
-    def findall(self, pattern, string, flags=0):
-        if not REC.active:
-            return real_re.findall(pattern, string, flags)
-        k = (pattern, int(flags))
-        i = self.pat[k] if k in self.pat else REC.unknown_index(("F",) + k)
-        tk = REC.text(string)
-        try:
-            ms = real_re.findall(pattern, string, flags)
-        except Exception as e:
-            REC.add(("F", i, tk), f"F {i} {tk}", "raise " + REC.exc_token(e))
-            raise
-        if all(isinstance(m, str) for m in ms):
-            res = " ".join(["ok"] + [REC.text(m) for m in ms])
-        else:   # a pattern with several groups: not the pinned shape
-            res = "ok " + REC.text("\x00tuples:" + repr(ms))
-        REC.add(("F", i, tk), f"F {i} {tk}", res)
-        return ms
-
-    def sub(self, pattern, repl, string, count=0, flags=0):
-        if not REC.active:
-            return real_re.sub(pattern, repl, string, count, flags)
-        k = (pattern, repl, count, int(flags))
-        try:
-            i = self.rep[k] if k in self.rep else REC.unknown_index(("U",) + k)
-        except TypeError:
-            i = REC.unknown_index(("U", repr(k)))
-        tk = REC.text(string)
-        try:
-            out = real_re.sub(pattern, repl, string, count, flags)
-        except Exception as e:
-            REC.add(("U", i, tk), f"U {i} {tk}", "raise " + REC.exc_token(e))
-            raise
-        REC.add(("U", i, tk), f"U {i} {tk}", "ok " + REC.text(out))
-        return out
-
-    def __getattr__(self, n):
-        return getattr(real_re, n)
 
 
 # ----------------------------------------------------------------------------------------------------------
@@ -373,12 +384,17 @@ class SchemaFactory:
                 if not REC.active or cls is not REC.top:
                     return super().model_validate(obj, *a, **kw)
                 j = REC.jid(obj) if not (a or kw) else REC.unknown_index(("V", repr(a), repr(kw)))
+                if isinstance(obj, dict):
+                    try:
+                        REC.describe_result(obj)      # names the dict the coercion produced
+                    except Exception:
+                        pass
                 try:
                     s = super().model_validate(obj, *a, **kw)
                 except Exception as e:
-                    REC.add(("V", j), f"V {j}", "raise " + REC.exc_token(e))
+                    REC.add(("V", j), f"V {j}", "raise " + REC.exc_token(e), call=True)
                     raise
-                REC.add(("V", j), f"V {j}", f"ok {REC.sid(s)}")
+                REC.add(("V", j), f"V {j}", f"ok {REC.sid(s)}", call=True)
                 return s
 
         self.base = RecBase
@@ -557,9 +573,10 @@ class C11(Prop):
                     "err:noValidJson", "err:noJson", "err:msg-jd", "err:msg-ve", "err:msg-other",
                     "conv:0", "conv:1", "conv:2", "conv:3", "conv:4", "conv:raise", "heal:v", "heal:h", "heal:d", "map:ok", "map:raise", "map:skip"]
     assumptions = [
-        "json.loads, re.findall, re.sub, schema.model_validate and Chaperone._coerce_types_tracked are environment: "
-        "arbitrary functions that return or raise (the theorems hold for every such environment); the harness "
-        "records the real ones per case and the model must make exactly the recorded calls",
+        "json.loads, the regex matches/substitutions of the instance's tables, schema.model_validate and the Python "
+        "primitives of the coercion table are environment: arbitrary functions that return or raise (the theorems hold "
+        "for every such environment); the harness evaluates the real ones on the texts that occur, intercepts only "
+        "model_validate on the generated schema classes, and the model must make exactly those model_validate calls",
         "re-validation of a validated structure (model_validate(structure.model_dump())) is a property of pydantic, "
         "checked by the oracle on the real code, not proved",
         "co-chaperone preprocessors and the on_misfold callback are user callbacks outside the try block and are not "
@@ -567,8 +584,9 @@ class C11(Prop):
         "the text of error messages and duration_ms are not observed",
     ]
     trusted_modelled = [
-        "modelled, not verified: CPython json / re, pydantic model_validate and the coercion helper as the Env "
-        "parameter of Operon.Chaperone (recorded per case); str.strip() as Operon.Chaperone.strip"]
+        "modelled, not verified: CPython json / re / int() / float() / str() / dict(), pydantic model_validate as the Env and "
+        "CEnv parameters of Operon.Chaperone (evaluated per case on the texts that occur); str.strip() as "
+        "Operon.Chaperone.strip"]
 
     extractors = ["E5-chaperone"]
 
@@ -586,34 +604,6 @@ class C11(Prop):
         import operon_ai.healing.chaperone_loop as loop_mod
         self.m = m
         self.loop_mod = loop_mod
-        self.rec_json = RecJson()
-        self.rec_re = RecRe()
-        m.json = self.rec_json
-        m.re = self.rec_re
-        orig = m.Chaperone._coerce_types_tracked
-
-        def coerce_recorded(self_, data, schema, *a, **kw):
-            if not REC.active:
-                return orig(self_, data, schema, *a, **kw)
-            j = REC.jid(data)
-            try:
-                REC.describe_data(data)
-            except Exception:      # never let the description disturb the code under test
-                pass
-            try:
-                res = orig(self_, data, schema, *a, **kw)
-            except Exception as e:
-                REC.add(("C", j), f"C {j}", "raise " + REC.exc_token(e))
-                raise
-            try:
-                result, coercions = res
-                REC.describe_result(result)
-                line = " ".join(["ok", str(REC.jid(result))] + [str(REC.cid(c)) for c in coercions])
-            except Exception:
-                line = "ok " + str(REC.unknown_index(("C", repr(res)[:200])))
-            REC.add(("C", j), f"C {j}", line)
-            return res
-        m.Chaperone._coerce_types_tracked = coerce_recorded
         self.factory = SchemaFactory()
         self.strat = {k: getattr(m.FoldingStrategy, v) for k, v in STRAT_LETTERS.items()}
         self.strat_letter = {v: k for k, v in self.strat.items()}
@@ -649,10 +639,10 @@ class C11(Prop):
     def notes_of(self, r) -> list:
         notes = []
         for c in r.coercions_applied:
-            if c in self.pattern_names:
-                notes.append(self.pattern_names[c])
-            elif c in self.repair_names:
-                notes.append(self.repair_names[c])
+            if c in REC.pattern_note:
+                notes.append(REC.pattern_note[c])
+            elif c in REC.repair_note:
+                notes.append(REC.repair_note[c])
             else:
                 notes.append(f"c{REC.cid(c)}")
         return notes
@@ -813,6 +803,7 @@ class C11(Prop):
                 REC.top = S
                 REC.calls = []
                 REC.describe_schema(S)
+                REC.prepare_text(ch, raw)
                 REC.active = True
                 err = None
                 r = None
@@ -867,6 +858,8 @@ class C11(Prop):
                 REC.top = S
                 REC.calls = []
                 REC.describe_schema(S)
+                for o_ in dict.fromkeys(outs):
+                    REC.prepare_text(ch, o_)
                 REC.active = True
                 err = None
                 r = None
